@@ -1,13 +1,19 @@
 from vlib.runner import Ob
+from vlib.extract import c_functions
+
+
+def _extract(txt):
+    return c_functions(txt, ["unham_page_link", "station_lookup", "unknown_cni", "vbi_decode_vps", "parse_bsd", "parse_8_30"],
+                       keep_head_until=r"^static void$", extra_lines=("#define TTX_EVENTS", "#define BSDATA_EVENTS"))
 
 
 def obligations(tier, seed):
-    H = dict(harness="h_c13.c", units=["src/hamm.c", "src/vps.c", "src/packet-830.c"], vin_size=128, flags=["--no-undefined-shift-check"],
-             stubs=["struct caption carved out of vbi_decoder", "vbi_send_event: snapshot log", "vbi_chsw_reset (drops the old station's cache): call log",
+    H = dict(harness="h_c13.c", patch={"src/packet.c": _extract}, units=["src/hamm.c", "src/vps.c", "src/packet-830.c"], vin_size=128, flags=["--no-undefined-shift-check"],
+             stubs=["struct caption and struct teletext carved out of vbi_decoder; packet.c reduced to the six announcement functions by textual extraction from the current source", "vbi_send_event: snapshot log", "vbi_chsw_reset (drops the old station's cache): call log",
                     "vbi_cni_table: 3 stations of the real struct type (tables.c not linked)", "cache functions: unused stubs"],
              unwindset={"bytes_eq.0": 20, "ref_station.0": 5, "ref_station.1": 5, "station_lookup.0": 5, "station_lookup.1": 5, "station_lookup.2": 5, "station_lookup.3": 5,
                         "_vbi_strlcpy.0": 70, "memcmp.0": 80, "ref_unham8.0": 20})
-    kq, kt = 4, 6
+    kq, kt = 3, 5
     return [
         Ob("vps_debounce", func="h_vps_debounce", unwind=16,
            desc="vbi_decode_vps over every history of K receptions drawn from two arbitrary 13-byte lines: a CNI is announced (NETWORK_ID carrying exactly the transmitted CNI, "
